@@ -22,6 +22,9 @@ pub enum Dec {
     LzmaProps { props: u8, dict: u32, size: u64 },
     Lzma2 { dict: u32 },
     Lzma2Mt { dict: u32, workers: u32 },
+    /// LZMA2 readers started with a (fixed, 64-byte) preset dictionary: the first chunk needs no dictionary reset
+    Lzma2Preset { dict: u32 },
+    Lzma2MtPreset { dict: u32, workers: u32 },
     XzMulti,
     XzSingle,
     Lzip,
@@ -35,8 +38,8 @@ impl Dec {
     fn family(&self) -> &'static str {
         match self {
             Dec::LzmaLimit(_) | Dec::LzmaProps { .. } => "lzma",
-            Dec::Lzma2 { .. } => "lzma2",
-            Dec::Lzma2Mt { .. } => "lzma2-mt",
+            Dec::Lzma2 { .. } | Dec::Lzma2Preset { .. } => "lzma2",
+            Dec::Lzma2Mt { .. } | Dec::Lzma2MtPreset { .. } => "lzma2-mt",
             Dec::XzMulti | Dec::XzSingle => "xz",
             Dec::Lzip => "lzip",
             Dec::LzipMt(_) => "lzip-mt",
@@ -84,12 +87,16 @@ fn drain<R: Read>(mut r: R) -> io::Result<usize> {
     }
 }
 
+const PRESET: [u8; 64] = *b"the quick brown fox jumps over the lazy dog, THE QUICK BROWN FOX";
+
 fn run_decoder(dec: &Dec, data: &[u8]) -> io::Result<usize> {
     match dec {
         Dec::LzmaLimit(limit) => drain(LZMAReader::new_mem_limit(data, *limit, None)?),
         Dec::LzmaProps { props, dict, size } => drain(LZMAReader::new_with_props(data, *size, *props, *dict, None)?),
         Dec::Lzma2 { dict } => drain(LZMA2Reader::new(data, *dict, None)),
         Dec::Lzma2Mt { dict, workers } => drain(LZMA2ReaderMT::new(data, *dict, None, *workers)),
+        Dec::Lzma2Preset { dict } => drain(LZMA2Reader::new(data, *dict, Some(&PRESET))),
+        Dec::Lzma2MtPreset { dict, workers } => drain(LZMA2ReaderMT::new(data, *dict, Some(&PRESET), *workers)),
         Dec::XzMulti => drain(XZReader::new(data, true)),
         Dec::XzSingle => drain(XZReader::new(data, false)),
         Dec::Lzip => drain(LZIPReader::new(data)?),
@@ -124,8 +131,8 @@ fn declared_dict(dec: &Dec, data: &[u8]) -> u64 {
                 0
             }
         }
-        Dec::LzmaProps { dict, .. } | Dec::Lzma2 { dict } => *dict as u64,
-        Dec::Lzma2Mt { dict, workers } => *dict as u64 * (*workers as u64 + 1),
+        Dec::LzmaProps { dict, .. } | Dec::Lzma2 { dict } | Dec::Lzma2Preset { dict } => *dict as u64,
+        Dec::Lzma2Mt { dict, workers } | Dec::Lzma2MtPreset { dict, workers } => *dict as u64 * (*workers as u64 + 1),
         Dec::XzMulti | Dec::XzSingle => {
             let mut m = 0;
             for w in data.windows(3) {
@@ -431,6 +438,53 @@ fn build(thorough: bool) -> C06 {
         }
     }
     {
+        // LZMA2 chunk sequences: the decoder state (dictionary reset seen, properties seen, state reset pending) after
+        // each of these prefixes x every control byte x size fields x payload patterns, so that every control byte is
+        // met in every state and with a payload long enough for the range decoder to start
+        let o = crate::codec::Opts::small();
+        let mut lz = crate::codec::encode(&Container::Lzma2, &o, b"aaaaaaaabbbbbbbb", &[]).unwrap();
+        lz.pop(); // without the end marker
+        let mut lz_unc = lz.clone();
+        lz_unc.extend_from_slice(&[0x02, 0x00, 0x00, 0x41]);
+        let prefixes: Vec<Vec<u8>> = vec![vec![], vec![0x01, 0x00, 0x00, 0x41], lz, lz_unc];
+        for pre in &prefixes {
+            for ctrl in 0..=255u8 {
+                if !thorough && ctrl >= 0x80 && ctrl & 0x1F != 0 && ctrl & 0x1F != 0x1F {
+                    continue; // the low five bits are only the top of the size: extremes in the quick tier
+                }
+                for unc in [[0u8, 0], [0xFF, 0xFF]] {
+                    for comp in [[0u8, 0], [0, 4], [0, 5], [0xFF, 0xFF]] {
+                        for pat in 0..3 {
+                            let mut s = pre.clone();
+                            s.push(ctrl);
+                            s.extend_from_slice(&unc);
+                            if ctrl >= 0x80 {
+                                s.extend_from_slice(&comp);
+                            } else if comp != [0, 0] {
+                                continue; // uncompressed chunks have one size field
+                            }
+                            match pat {
+                                0 => s.extend_from_slice(&[0; 24]),
+                                1 => {
+                                    s.push(0x5D);
+                                    s.extend_from_slice(&[0; 23]);
+                                }
+                                _ => s.extend_from_slice(&[0xFF; 24]),
+                            }
+                            let ii = add_input(s, &mut inputs);
+                            cases.push(Case { sub: None, dec: Dec::Lzma2 { dict: 4096 }, input: ii, class: "lzma2-chunk-seq" });
+                            cases.push(Case { sub: None, dec: Dec::Lzma2Preset { dict: 4096 }, input: ii, class: "lzma2-chunk-seq" });
+                            if pat == 0 || thorough {
+                                cases.push(Case { sub: None, dec: Dec::Lzma2Mt { dict: 4096, workers: 2 }, input: ii, class: "lzma2-chunk-seq" });
+                                cases.push(Case { sub: None, dec: Dec::Lzma2MtPreset { dict: 4096, workers: 2 }, input: ii, class: "lzma2-chunk-seq" });
+                            }
+                        }
+                    }
+                }
+            }
+        }
+    }
+    {
         // LZIP header / trailer extremes on a real member
         let o = crate::codec::Opts::small();
         let m = crate::codec::encode(&Container::Lzip { member: None }, &o, b"hello hello hello", &[]).unwrap();
@@ -607,7 +661,7 @@ pub fn run(cli: &Cli, rep: &Report) {
         "E-enum in child processes: (i) every byte string of length <= 1, 2-byte strings over boundary bytes and MICRO({00,01,02,5D,80,E0,FF}, <=5) as input of every decoder (LZMA with memory limit, LZMA2 x 8 dictionary sizes, \
          LZMA2-MT, XZ multi/single, LZIP, LZIP-MT, BCJ x8, Delta, BCJ2), LZMAReader::new_with_props x props 0..=255 x 8 dictionary sizes x 4 declared sizes, filters x extreme start offsets/distances/sizes; \
          (ii) every corpus file x every byte position x all 255 other values, XZ additionally with the enclosing CRC32 recomputed; (iii) hand-made XZ indexes with record counts up to 2^63-1, all 256 block header size bytes, \
-         all 256 dictionary properties, filter id/property-size/flag extremes, all 256 LZMA2 control bytes x chunk sizes {0,FFFF}, all LZIP version/dictionary bytes and trailer size extremes; (iv) N = 1..10^5 empty LZIP members / empty XZ streams / \
+         all 256 dictionary properties, filter id/property-size/flag extremes, all 256 LZMA2 control bytes x chunk sizes {0,FFFF}, LZMA2 chunk sequences (4 decoder states reached by real prefixes, with and without preset dictionary) x control bytes x size fields x 3 payload patterns, all LZIP version/dictionary bytes and trailer size extremes; (iv) N = 1..10^5 empty LZIP members / empty XZ streams / \
          one-byte LZMA2 units. Monitors per case: panic, process death (abort, stack overflow on an 8 MiB stack, refused allocation), 6 s watchdog, peak heap <= declared dictionary + 16 x input + 16 MiB; non-trivial = the case ran to a verdict",
     );
     rep.assumption("each read call gets a 4 KiB buffer and the driver stops after 16 MiB of output, so long legitimate output is not flagged; 'bounded time' is the 6 s watchdog, not a complexity bound");
